@@ -21,6 +21,21 @@ VARIABLE l
 
 Init == l = 1
 
+\* A deep tree arrives as a pre-order list of elements with their depth ("flat": the JSON reader refuses documents
+\* nested deeper than 255 levels); the element record is rebuilt from it.
+RECURSIVE Build(_, _)
+Build(fl, i) ==
+  LET RECURSIVE Kids(_, _)
+      Kids(j, acc) ==
+        IF j <= Len(fl) /\ fl[j].d = fl[i].d + 1
+        THEN LET b == Build(fl, j) IN Kids(b.nxt, Append(acc, [t |-> fl[j].t, e |-> b.e]))
+        ELSE [ch |-> acc, nxt |-> j]
+      k == Kids(i + 1, <<>>)
+  IN [e |-> [name |-> fl[i].name, text |-> fl[i].text, sa |-> fl[i].sa, cnt |-> fl[i].cnt, pos |-> fl[i].pos,
+             attrs |-> fl[i].attrs, ch |-> k.ch],
+      nxt |-> k.nxt]
+TreeOf(e) == IF "flat" \in DOMAIN e THEN Build(e.flat, 1).e ELSE e.tree
+
 SameButSort(o1, o2) == o1.derive = o2.derive /\ o1.prefix = o2.prefix /\ o1.textid = o2.textid /\ o1.sort # o2.sort
 
 \* the text itself, when the line carries it: it is exactly the layout of the records the template parser read from it
@@ -44,11 +59,12 @@ CrossTags(rs, i) ==
         THEN {"SORT_CHANGES_MORE"} ELSE {})
 
 Judge(e) ==
+  LET tree == TreeOf(e) IN
   \A i \in 1..Len(e.renders) :
      LET r == e.renders[i]
-         tags == PerRender(e.tree, r) \cup CrossTags(e.renders, i)
-         drift == r.ok /\ r.structs # ModelStructs(e.tree, r.opts)
-         modeltags == IF DomC04(e.tree) THEN C04Tags(ModelStructs(e.tree, r.opts)) ELSE {}
+         tags == PerRender(tree, r) \cup CrossTags(e.renders, i)
+         drift == r.ok /\ r.structs # ModelStructs(tree, r.opts)
+         modeltags == IF DomC04(tree) THEN C04Tags(ModelStructs(tree, r.opts)) ELSE {}
      IN IF tags = {} /\ ~drift THEN TRUE
         ELSE PrintT("INFO " \o ToJson([line |-> l, render |-> i, tags |-> tags, drift |-> drift, modeltags |-> modeltags]))
 
